@@ -6,8 +6,8 @@ import pse
 from pse import show
 
 
-def check(ctx, adt=T.ANIM_ADT):
-    F = ctx.facts
+def check(ctx, adt=T.ANIM_ADT, F=None, only_r1=False):
+    F = F or ctx.facts
     R = T.roles_of(F, adt)
     body = F.one(name="is_ended", impl_self_adt=adt, impl_trait=T.SA_TRAIT)
     # Timeline methods stay trait-level calls
@@ -42,9 +42,18 @@ def check(ctx, adt=T.ANIM_ADT):
                    body["span"], trace_of(p), what="unexpected-row")
     ctx.ob("R1", inst + "/both-rows", seen == {0, 1}, "is_ended must distinguish has-timeline / no-timeline",
            body["span"], what="rows-missing")
+    if only_r1:
+        return
     # R2: merged duration = maximum of the components' durations; infinite iff Repeat::Infinite (C03/R4)
     c12.check_fold(ctx, F, "R2", "duration", "max_by")
     c03.rule_duration_formula(ctx, "R2")
     ctx.notes.append("R3 (once ended, values rest) follows from C06/R1 (the accumulator only grows), C02/R3 (Ended "
                      "maps to a constant position) and C09 (update is a function of time)")
     ctx.notes.append("not decided: float behaviour exactly at the end instant of multi-cycle timelines")
+
+
+def controls(ctx, F):
+    check(ctx, adt="witness_controls::anim::CtlAnimator", F=F, only_r1=True)
+    c12.check_fold(ctx, F, "R2", "duration", "max_by", adt="witness_controls::merged::CtlMerged")
+    return [("R1", "end-test-wrong", "is_ended with a strict comparison"),
+            ("R2", "comparator-not-natural", "merged duration folded with a reversed comparator")]
